@@ -1066,7 +1066,7 @@ fn composite_drv<Backing: AsRef<[u32]> + AsMut<[u32]>>(dt: &mut DrawTarget<Backi
 }
 
 // @ob id=K.fill_driver props=C01,C10,C02 kind=complete unwind_complete=yes tier=quick timeout=600 fns=DrawTarget::fill
-// @+ desc="fill(): apply_path, then (iff the rasteriser bounds have positive width and height) a mask of exactly bounds.width*bounds.height+1 bytes is rasterised with the PATH's winding rule and composited with mask rect = shape rect = the bounds, the caller's blend mode and alpha; the rasteriser is reset exactly once, last, on every path (empty bounds included) -- no residue; bounds symbolic in the surface box; callees replaced by recorders"
+// @+ desc="fill(): apply_path, then (iff the rasteriser bounds have positive width and height) a mask of exactly bounds.width*bounds.height+1 bytes (supersampling blitter for AntialiasMode::Gray, aliased blitter for None, placed at the bounds' origin) is rasterised with the PATH's winding rule and composited with mask rect = shape rect = the bounds, the caller's blend mode and alpha; the rasteriser is reset exactly once, last, on every path (empty bounds included) -- no residue; bounds symbolic in the surface box; callees replaced by recorders"
 #[kani::proof]
 #[kani::unwind(10)]
 #[kani::stub(DrawTarget::apply_path, apply_path_rec)]
@@ -1074,6 +1074,8 @@ fn composite_drv<Backing: AsRef<[u32]> + AsMut<[u32]>>(dt: &mut DrawTarget<Backi
 #[kani::stub(Rasterizer::rasterize, rasterize_rec)]
 #[kani::stub(Rasterizer::reset, reset_rec)]
 #[kani::stub(DrawTarget::composite, composite_drv)]
+#[kani::stub(MaskBlitter::new, crate::blitter::verif_kani::mask_blitter_new_rec)]
+#[kani::stub(MaskSuperBlitter::new, crate::blitter::verif_kani::super_blitter_new_rec)]
 fn k_fill_driver() {
     let mut dt = DrawTarget::new(CW, CH);
     let b: [i32; 4] = kani::any();
@@ -1095,6 +1097,9 @@ fn k_fill_driver() {
         assert!(c.has_mask && c.mask_len == (w * h) as usize + 1, "mask buffer of bounds.width*bounds.height (+1 slack) bytes");
         assert!(c.mask_rect == intrect(b[0], b[1], b[2], b[3]) && c.rect == c.mask_rect, "mask rect = shape rect = rasteriser bounds");
         assert!(c.blend == BlendMode::DstOut && c.alpha_bits == alpha.to_bits(), "caller's blend mode and alpha");
+        let ml = unsafe { crate::blitter::verif_kani::MASK_NEW_LOG };
+        assert!(ml.0 == (if aa { 2 } else { 1 }), "antialias Gray -> 4x4 supersampling mask, None -> aliased mask");
+        assert!(ml.1 == b[0] && ml.2 == b[1] && ml.3 == w && ml.4 == h, "mask origin and size = rasteriser bounds");
     } else {
         assert!(n == 3 && d[0] == 1 && d[1] == 2 && d[2] == 5, "empty bounds: nothing rasterised or composited, rasteriser still reset");
     }
@@ -1540,3 +1545,35 @@ fn k_draw_image_at() {
     assert!(fr.6 == alpha.to_bits(), "caller's options");
     kani::cover!(x == 1.5);
 }
+
+
+// ------------------------------------------------------------------ fill_rect general route (C14 #1, C05)
+fn fill_rect_general(case: u8) {
+    let mut dt = wf_target_sym(if case == 0 { 1 } else if case == 1 { 2 } else { 0 });
+    let (mut x, y, w, h) = (1.0f32, 0.0f32, 2.0f32, 1.0f32);
+    if case == 2 { dt.transform = Transform::translation(0.5, 0.); }
+    if case == 3 { x = 1.25; }
+    let alpha: f32 = kani::any();
+    comp_reset();
+    dt.fill_rect(x, y, w, h, &Source::Solid(SolidSource { r: 1, g: 2, b: 3, a: 255 }), &DrawOptions { blend_mode: BlendMode::Xor, alpha, antialias: AntialiasMode::Gray });
+    let f = unsafe { &FILL };
+    assert!(unsafe { COMP.n } == 0, "no direct composite: a clip, a transform or a non-integer rectangle must take the general path");
+    assert!(f.n == 1 && f.ops == 5 && f.closed, "one fill of a closed rectangle path");
+    assert!(f.pts[0] == (x.to_bits(), y.to_bits()) && f.pts[1] == ((x + w).to_bits(), y.to_bits()) && f.pts[2] == ((x + w).to_bits(), (y + h).to_bits()) && f.pts[3] == (x.to_bits(), (y + h).to_bits()), "the rectangle's corners");
+    assert!(f.blend == BlendMode::Xor && f.alpha_bits == alpha.to_bits() && f.solid == 0xff010203, "caller's source and options");
+    kani::cover!(true);
+}
+// @ob id=K.fill_rect_general_clip props=C14,C05,C02 kind=bounded:surface=3x2 tier=quick timeout=600 fns=DrawTarget::fill_rect
+// @+ desc="fill_rect under a non-empty clip stack (rect clip; path clip) never takes the mask-less fast path: exactly one fill of PathBuilder::rect(x,y,w,h) with the caller's source and options (so clip coverage is honoured)"
+#[kani::proof]
+#[kani::unwind(10)]
+#[kani::stub(DrawTarget::composite, composite_rec)]
+#[kani::stub(DrawTarget::fill, fill_rec)]
+fn k_fill_rect_general_clip() { fill_rect_general(0); fill_rect_general(1); }
+// @ob id=K.fill_rect_general_xf props=C14,C11 kind=bounded:surface=3x2 tier=quick timeout=600 fns=DrawTarget::fill_rect
+// @+ desc="fill_rect under a non-identity transform, or with a non-integer rectangle, takes the general path: one fill of PathBuilder::rect(x,y,w,h)"
+#[kani::proof]
+#[kani::unwind(10)]
+#[kani::stub(DrawTarget::composite, composite_rec)]
+#[kani::stub(DrawTarget::fill, fill_rec)]
+fn k_fill_rect_general_xf() { fill_rect_general(2); fill_rect_general(3); }
